@@ -943,6 +943,7 @@ impl Sim {
                         } else {
                             self.refrtt.sample(r as f64);
                             ctx.count("c15.samples");
+                            ctx.count(&format!("c15.samples.completed-by.{}", how));
                         }
                     }
                 }
